@@ -75,7 +75,7 @@ PROPS["C18"] = {
 }
 
 _SYM_MODELLED = ["XSalsa20 / ChaCha20 / HChaCha20 are the external crates salsa20 / chacha20 (and hand-written cores): modelled by Coq specifications (Spec/Salsa20.v, Spec/ChaCha20.v) and tied by correspondence only",
-                 "Poly1305: hand-written model of poly1305_soft.rs (Impl/Poly1305.v) tied by correspondence (incl. adversarial carry operands)",
+                 "Poly1305: hand-written model of poly1305_soft.rs (Impl/Poly1305.v), PROVED equal to RFC 8439 for every key / message / chunking (Refine/Poly1305.v) and tied to the crate by correspondence (incl. adversarial carry operands)",
                  "subtle::ct_eq modelled as byte-string equality; zeroize not modelled"]
 
 PROPS["C07"] = {
@@ -86,6 +86,9 @@ PROPS["C07"] = {
         {"name": "C07_increment", "status": "proved", "statement": "LE(increment bs) = (LE bs + 1) mod 256^|bs| for every byte string"},
         {"name": "C07_onetimeauth_verify_iff", "status": "proved", "statement": "verify = Ok iff mac = onetimeauth key msg"},
         {"name": "C07_auth_verify_iff", "status": "proved", "statement": "verify = Ok iff mac = auth key msg"},
+        {"name": "C07_poly1305", "status": "proved", "statement": "forall 32-byte key, message: crypto_onetimeauth (model of poly1305_soft.rs: key clamping into 44/44/42-bit limbs, block loading, multiplication / carry, buffering, finalize with two carry rounds, conditional subtraction of p, pad addition, packing) = RFC 8439 Poly1305"},
+        {"name": "C07_poly1305_block", "status": "proved", "statement": "one block step: limb value = ((acc + n) * r) mod p, limbs stay carried, every u128 sum < 2^92 (no overflow of any checked operation; every `as u64` exact)"},
+        {"name": "C07_poly1305_block_is_code", "status": "proved", "statement": "the Rust block body with its masks, shifts, `as u64` and wrapping_add = that arithmetic step on the loaded limbs"},
         {"name": "C07_gen_tables", "status": "proved", "statement": "SIGMA / IV / size constants regenerated from blake2b_soft.rs equal the model's"},
         {"name": "C07_kat_blake2b", "status": "proved", "statement": "non-vacuity: RFC 7693 'abc' through the implementation model"},
     ],
@@ -97,13 +100,15 @@ PROPS["C07"] = {
     "modelled": _SYM_MODELLED + ["SHA-512 / HMAC: implementation is the external sha2 crate; Spec/Sha512.v is an executable FIPS 180-4 reference tied by correspondence",
                                   "SipHash, HSalsa20, HChaCha20: model = specification (the Rust kernels are compared by correspondence; see DESIGN 'Changes')"],
     "assumptions": ["libsodium as second reference", "Poly1305 limb arithmetic = RFC 8439 is checked by correspondence incl. carry corner operands (proof pending, see DESIGN 'Changes')"],
-    "partial": "Poly1305 / SipHash / cores: Impl = Spec is by correspondence, not yet by theorem",
+    "partial": "BLAKE2b and Poly1305 proved = their RFCs; SipHash-2-4, HSalsa20, HChaCha20, SHA-512 / HMAC (external crate) : Impl = Spec by correspondence only",
 }
 
 PROPS["C08"] = {
     "theorems": [
         {"name": "C08_blake2b_update_chunks", "status": "proved", "statement": "forall compression function, state with |buf| <= 128, chunk list: fold update = update (concat)"},
         {"name": "C08_generichash", "status": "proved", "statement": "init/update*/final over any chunk list = single update of the concatenation"},
+        {"name": "C08_poly1305_update_chunks", "status": "proved", "statement": "forall sequences of update calls: the Poly1305 state is the absorbed view of the concatenation (whole 16-byte blocks folded into h, remainder < 16 bytes buffered)"},
+        {"name": "C08_onetimeauth_chunks", "status": "proved", "statement": "forall key, chunking: incremental onetimeauth = RFC 8439 Poly1305 of the concatenation"},
         {"name": "C08_external_hasher", "status": "proved", "statement": "any hasher with update (update s a) b = update s (a++b) and update s [] = s: fold = one update (sha2-backed interfaces)"},
         {"name": "C08_example", "status": "proved", "statement": "non-vacuity example by vm_compute"},
     ],
@@ -112,7 +117,7 @@ PROPS["C08"] = {
             "object-API incremental interfaces; PRNG k-way partitions with empty pieces of 1-8 KiB messages; a 0.5% (thorough 2%) sample of the partitions through the extracted model (correspondence). non-trivial: all; distinct by (op,args)",
     "modelled": _SYM_MODELLED,
     "assumptions": ["sha2::Sha512 update law (validated on every split by the search)", "Poly1305 buffering: correspondence (theorem pending)"],
-    "partial": "Poly1305 update_chunks theorem pending; BLAKE2b proved",
+    "partial": "BLAKE2b and Poly1305 proved; SHA-512 / HMAC incremental forms are folds over the external hasher (C08_external_hasher), the hasher itself by correspondence",
 }
 
 PROPS["C01"] = {
